@@ -163,3 +163,9 @@ impl<const N: usize> OrSWotSet<N> {
         (changes, removals)
     }
 }
+
+impl<const N: usize> vcoll::Havoc for OrSWotSet<N> {
+    fn havoc() -> Self {
+        Self::arbitrary_unbounded()
+    }
+}
